@@ -18,10 +18,16 @@
    simplex form [lower_vertices] and, for one hull dimension, with the monotone chain.
 
    PARTIAL (stated in comments where they belong): Caratheodory's theorem (completeness of
-   the simplex form for 2-3 hull dimensions) and strictness in "selected => lower vertex"
-   are not proved; the contract h1-h3 is validated, not proved of qhull. *)
-From Coq Require Import QArith Sorting.Sorted.
-From Verif Require Import ListX DCH DCHP DCHSpecP DCHChainP DCH1dP.
+   the simplex form for 2-3 hull dimensions) is not proved; the contract h1-h3 (+ general
+   position and simplicial kept facets for the strict clause) is validated, not proved of qhull.
+
+   Round 3 (Model/DCHExt.v): strictness of "selected => lower vertex" (C19_selected_lower_strict);
+   samples sharing a position (C19_same_position_not_lower, and for one hull dimension the
+   complete characterisation / decision procedure on ANY sample list, C19_lower_vertex_1d_any,
+   C19_lower_vertex_1d_decision); Part C: the estimator object as a state machine (guard of fit,
+   refit = fresh fit, scoring after a refit, the non-atomic failed refit, unfitted object). *)
+From Coq Require Import QArith Lqa Sorting.Sorted.
+From Verif Require Import ListX DCH DCHP DCHSpecP DCHChainP DCH1dP DCHExt DCHStrictP DCHExtP DCHInsertP.
 
 (* ============================== Part A: the model under the oracle contract ============== *)
 
@@ -115,6 +121,19 @@ Theorem C19_selected_lower_partial :
     (nth 0 (nth i P []) 0 <= combo_target P w)%Q.
 Proof. exact selected_on_surface. Qed.
 Print Assumptions C19_selected_lower_partial.
+
+(* "selected => lower vertex", FULL STRENGTH (round 3): in general position w.r.t. the hull
+   (contract_gp) and with simplicial kept facets (contract_simplex: a convex combination of a
+   kept facet's vertices located at its vertex i must use i), the target of a selected sample
+   lies STRICTLY below every convex combination of the OTHER samples at its position.
+   Together with C19_unselected_not_lower this is the "exactly when" clause of the statement. *)
+Theorem C19_selected_lower_strict :
+  forall d fs P, wf_dim d fs P -> contract_h1 fs P -> contract_h2 fs P ->
+    contract_gp fs P -> contract_simplex d fs P ->
+  forall i w, In i (selected fs) -> is_combo d P w (tl (nth i P [])) -> (nth i w 0 == 0)%Q ->
+    (nth 0 (nth i P []) 0 < combo_target P w)%Q.
+Proof. exact selected_lower_strict. Qed.
+Print Assumptions C19_selected_lower_strict.
 
 (* positive affine change of the target y -> a*y + c (a > 0): the hull's facets become
    [taffine a c f] (up to qhull's normalisation, see C19_facet_scaling); they satisfy the
@@ -225,6 +244,95 @@ Theorem C19_chain_1d_complete :
 Proof. exact chain_1d_complete. Qed.
 Print Assumptions C19_chain_1d_complete.
 
+(* ---- round 3: the order of the samples ---------------------------------------------------- *)
+(* moving a sample from any index to the end of the sample list does not change which samples
+   are lower vertices (indices follow the move) *)
+Theorem C19_sample_order_rotation :
+  forall d P1 P2 q j, (j < length P1 + S (length P2))%nat ->
+    (below_combo d (P1 ++ q :: P2) j <->
+     below_combo d ((P1 ++ P2) ++ [q]) (rot_idx (length P1) (length P2) j)).
+Proof. exact below_combo_rotate. Qed.
+Print Assumptions C19_sample_order_rotation.
+
+(* hence C19_add_above_new / _old hold for a sample INSERTED AT ANY INDEX *)
+Theorem C19_insert_above_new :
+  forall d P1 P2 q, strictly_above d (P1 ++ P2) q -> below_combo d (P1 ++ q :: P2) (length P1).
+Proof. exact inserted_point_not_lower. Qed.
+Print Assumptions C19_insert_above_new.
+
+Theorem C19_insert_above_old :
+  forall d P1 P2 q i, (i < length (P1 ++ P2))%nat -> strictly_above d (P1 ++ P2) q ->
+    (below_combo d (P1 ++ q :: P2) (shift_idx (length P1) i) <-> below_combo d (P1 ++ P2) i).
+Proof. exact insert_above_invariant. Qed.
+Print Assumptions C19_insert_above_old.
+
+(* ---- round 3: samples sharing their low-dimensional position --------------------------------- *)
+(* any number of hull dimensions and samples: a sample that has ANOTHER sample at the same
+   position with a target <= its own is not a lower vertex (whatever the order of the two) *)
+Theorem C19_same_position_not_lower :
+  forall d P i, (i < length P)%nat -> stacked_below d P i -> below_combo d P i.
+Proof. exact stacked_not_lower. Qed.
+Print Assumptions C19_same_position_not_lower.
+
+(* one hull dimension, ANY sample list (positions may repeat, any order): Caratheodory in
+   dimension 1 without the distinctness hypothesis of C19_lower_vertex_1d *)
+Theorem C19_lower_vertex_1d_any :
+  forall P i, (forall p, In p P -> length p = 2%nat) -> (i < length P)%nat ->
+    (below_combo 1 P i <->
+     stacked_below 1 P i \/ not_lower_1d (map pt1 P) (pt1 (nth i P []))).
+Proof. exact below_combo_1d_any. Qed.
+Print Assumptions C19_lower_vertex_1d_any.
+
+(* ... hence the executable test the check runs on such sample sets is sound and complete *)
+Theorem C19_lower_vertex_1d_decision :
+  forall P, (forall p, In p P -> length p = 2%nat) ->
+  forall i, In i (lower_vertices_1d P) <-> (i < length P)%nat /\ is_lower_vertex 1 P i.
+Proof. exact lower_vertices_1d_spec. Qed.
+Print Assumptions C19_lower_vertex_1d_decision.
+
+(* ============================== Part C: the estimator object (round 3) ===================== *)
+(* fit's guard `max(|low_dim_idx|) > n_features and min(low_dim_idx) >= 0`, as written *)
+Theorem C19_fit_guard_value_error :
+  forall low nfeat, fit_guard low nfeat = ValueErr <->
+    (nfeat < zmax_list (map Z.abs low) /\ 0 <= zmin_list low).
+Proof. exact fit_guard_value_error. Qed.
+Print Assumptions C19_fit_guard_value_error.
+
+(* refit = fresh fit: after a successful fit the object's state depends only on its parameters
+   and the data, not on anything the object went through before *)
+Theorem C19_refit_is_fresh_fit :
+  forall o nfeat fs, fit_guard (o_low o) (Z.of_nat nfeat) = Done ->
+    obj_fit o nfeat fs = obj_fit (fresh (o_low o) (o_tol o)) nfeat fs.
+Proof. exact refit_is_fresh_fit. Qed.
+Print Assumptions C19_refit_is_fresh_fit.
+
+(* scoring a (re)fitted object with the fitted feature count IS the function-level
+   score_samples of Part A on the kept facets: all theorems of Part A apply to it *)
+Theorem C19_score_after_fit :
+  forall o nfeat fs X y, fit_guard (o_low o) (Z.of_nat nfeat) = Done ->
+    (forall f, In f (lower_facets fs) -> length (fnormal f) = S (length (o_low o))) ->
+    let o' := snd (obj_fit o nfeat fs) in
+    fst (obj_fit o nfeat fs) = Done /\
+    obj_score o' nfeat X y
+    = (Done, score_samples (o_tol o) (lower_facets fs) (low_nat (o_low o)) X y).
+Proof. exact score_after_fit. Qed.
+Print Assumptions C19_score_after_fit.
+
+(* the code as found: a fit that fails its guard (or numpy's bounds check) has already
+   overwritten n_features_in_ but keeps the previous hull *)
+Theorem C19_failed_refit_keeps_hull :
+  forall o nfeat fs,
+    fit_guard (o_low o) (Z.of_nat nfeat) = ValueErr \/ fit_guard (o_low o) (Z.of_nat nfeat) = IndexErr ->
+    let o' := snd (obj_fit o nfeat fs) in
+    fst (obj_fit o nfeat fs) <> Done /\ o_hull o' = o_hull o /\ o_nfeat o' = Some nfeat.
+Proof. exact failed_refit_keeps_hull. Qed.
+Print Assumptions C19_failed_refit_keeps_hull.
+
+Theorem C19_unfitted_refuses :
+  forall low tol ncols X y, obj_score (fresh low tol) ncols X y = (NotFitted, []).
+Proof. exact unfitted_refuses. Qed.
+Print Assumptions C19_unfitted_refuses.
+
 (* ============================== non-vacuity ================================================= *)
 (* hull of (x,y) = (-1,1), (0,0), (1,1), (0,2): two lower facets, two upper facets; sample 3 is
    unselected, 2 above the surface.  The contract h1, h2, h3 and general position hold. *)
@@ -296,4 +404,65 @@ Proof.
   - exists [0; 1; 0], 1. split; [lia|]. split; [reflexivity|].
     split; [intros [|[|[|[|j]]]]; cbn; lia|]. split; [reflexivity|].
     split; [intros c Hc; assert (c = 1)%nat as -> by lia; reflexivity|]. vm_compute. reflexivity.
+Qed.
+
+(* round 3.  The kept facets of the example are simplicial (contract_simplex), so the strict
+   theorem applies to it *)
+Example C19_nonvacuous_simplex : contract_simplex 1 ex_fs ex_P.
+Proof.
+  intros f i w Hf Hv (Hl & Hpos & Hsum & Hc) Hz Hi.
+  destruct w as [|w0 [|w1 [|w2 [|w3 [|]]]]]; try discriminate.
+  specialize (Hc 0%nat ltac:(lia)).
+  cbn in Hf. destruct Hf as [<-|[<-|[]]]; cbn in Hv; destruct Hv as [<-|[<-|[]]];
+    try (pose proof (Hz 0%nat ltac:(cbn; lia) ltac:(cbn; intuition discriminate)) as A0);
+    try (pose proof (Hz 1%nat ltac:(cbn; lia) ltac:(cbn; intuition discriminate)) as A1);
+    try (pose proof (Hz 2%nat ltac:(cbn; lia) ltac:(cbn; intuition discriminate)) as A2);
+    try (pose proof (Hz 3%nat ltac:(cbn; lia) ltac:(cbn; intuition discriminate)) as A3);
+    cbn [nth ex_P tl hd qdot qcol map map2 qsum] in *; lra.
+Qed.
+
+(* samples sharing a position: (x,y) = (-1,1), (0,0), (1,1), (0,2), (0,-1): sample 4 sits at the
+   position of samples 1 and 3 with the lowest target; it is selected although it comes last,
+   samples 1 and 3 are not lower vertices *)
+Definition ex_PZ2 : list (list Z) := [[1; -1]; [0; 0]; [1; 1]; [2; 0]; [-1; 0]].
+Example C19_nonvacuous_stacked :
+  lower_vertices_1d ex_PZ2 = [0; 2; 4]%nat /\ lower_vertices 1 ex_PZ2 = [0; 2; 4]%nat /\
+  stacked_below 1 ex_PZ2 1 /\ below_combo 1 ex_PZ2 1 /\ is_lower_vertex 1 ex_PZ2 4.
+Proof.
+  assert (Hdim : forall p, In p ex_PZ2 -> length p = 2%nat).
+  { intros p Hp. cbn in Hp. destruct Hp as [<-|[<-|[<-|[<-|[<-|[]]]]]]; reflexivity. }
+  assert (S1 : stacked_below 1 ex_PZ2 1).
+  { exists 4%nat. split; [cbn; lia|]. split; [discriminate|]. split.
+    - intros c Hc. assert (c = 1)%nat as -> by lia. reflexivity.
+    - cbn. lia. }
+  split; [vm_compute; reflexivity|]. split; [vm_compute; reflexivity|]. split; [exact S1|].
+  split; [apply stacked_not_lower; [cbn; lia|exact S1]|].
+  apply (lower_vertex_1d_b_spec ex_PZ2 4 Hdim); [cbn; lia|vm_compute; reflexivity].
+Qed.
+
+(* a life of the object: fit on 3 features with low_dim_idx [0;2] (ok), re-parametrise to [3]
+   and refit on 3 features (passes the guard, numpy raises IndexError: the quirk), to [4]
+   (ValueError), score with 3 columns (IndexError: the stale hull is still there, low_dim_idx
+   is read at call time), re-parametrise to [1] and score (ValueError: the stored equations
+   have another dimension), refit (ok), score (ok), score with 2 columns (ValueError) *)
+Example C19_nonvacuous_object :
+  run_life (fresh [0; 2] 0%Q)
+    [OpScore 3; OpFit 3; OpScore 3; OpSet [3]; OpFit 3; OpSet [4]; OpFit 3; OpScore 3;
+     OpSet [1]; OpScore 3; OpFit 3; OpScore 3; OpScore 2]
+  = [3; 0; 0; 2; 1; 2; 1; 0; 0; 1]%nat /\
+  fit_guard [0; 2] 3 = Done /\ fit_guard [3] 3 = IndexErr /\ fit_guard [4] 3 = ValueErr /\
+  fit_guard [-1] 3 = Done /\ fit_guard [-4; 9] 3 = IndexErr.
+Proof. repeat split; vm_compute; reflexivity. Qed.
+
+(* the sample (0,2) inserted at index 1 of (-1,1), (0,0), (1,1): not a lower vertex, and sample
+   (0,0), now at index 2 = shift_idx 1 1, keeps its status *)
+Example C19_nonvacuous_insert :
+  below_combo 1 ([[1; -1]] ++ [2; 0] :: [[0; 0]; [1; 1]]) 1 /\
+  (below_combo 1 ([[1; -1]] ++ [2; 0] :: [[0; 0]; [1; 1]]) (shift_idx 1 1)
+   <-> below_combo 1 ([[1; -1]] ++ [[0; 0]; [1; 1]]) 1) /\ shift_idx 1 1 = 2%nat.
+Proof.
+  assert (A : strictly_above 1 ([[1; -1]] ++ [[0; 0]; [1; 1]]) [2; 0])
+    by exact (proj2 (proj2 (proj2 (proj2 (proj2 C19_nonvacuous_spec))))).
+  split; [exact (inserted_point_not_lower 1 [[1; -1]] [[0; 0]; [1; 1]] [2; 0] A)|].
+  split; [apply (insert_above_invariant 1 [[1; -1]] [[0; 0]; [1; 1]] [2; 0] 1); [cbn; lia|exact A]|reflexivity].
 Qed.
